@@ -45,6 +45,11 @@ def _f32(x: float) -> float:
     return struct.unpack(">f", struct.pack(">f", x))[0]
 
 
+class Dtc(int):
+    """a trouble code as decoded through a DTC-DOP (compared by its hex spelling)"""
+
+
+DTCS = [0x012300, 0xA001, 0x7, 0x123456, 0xABCDEF]
 TT = {1: "alpha", 2: "Alpha", 3: "beta"}
 LEAF: Dict[str, Tuple[int, List[Any]]] = {
     "u8": (1, [0, 1, 2, 16, 17, 18, 34, 49, 98]),  # 0: falsy but a value like any other
@@ -55,6 +60,7 @@ LEAF: Dict[str, Tuple[int, List[Any]]] = {
     "lin": (1, [0.0, 0.5, 1.0, 1.5, 2.0]),
     "tt": (1, ["alpha", "Alpha", "beta"]),
     "f32": (4, [0.0, 1.5, -2.25, _f32(0.1), 1024.0]),
+    "dtc3": (3, [Dtc(c) for c in DTCS]),
 }
 NRCS = [0x10, 0x11, 0x12, 0x22, 0x31]
 INVALID = ("<invalid>",)
@@ -77,6 +83,8 @@ def enc_leaf(ty: str, v: Any) -> bytes:
         return bytes([k for k, t in TT.items() if t == v][:1] or [0])
     if ty == "f32":
         return struct.pack(">f", v)
+    if ty == "dtc3":
+        return int(v).to_bytes(3, "big")
     raise ValueError(ty)
 
 
@@ -99,6 +107,9 @@ def dec_leaf(ty: str, b: bytes) -> Any:
         return TT.get(b[0], INVALID)
     if ty == "f32":
         return struct.unpack(">f", b)[0]
+    if ty == "dtc3":
+        c = int.from_bytes(b, "big")
+        return Dtc(c) if c in DTCS else INVALID
     raise ValueError(ty)
 
 
@@ -142,17 +153,20 @@ def encode(layout: List[J], vals: J, req: bytes) -> bytes:
 class Reading:
     """One way of reading the clauses the property leaves open (all are accepted)."""
 
-    FLAGS = ("lex_int", "lex_hex", "trailing_ok", "partial_ok", "echo_strict", "poison")
+    FLAGS = ("lex_int", "lex_hex", "trailing_ok", "partial_ok", "echo_strict", "poison",
+             "poison_text")
 
     def __init__(self, lex_int: bool = False, lex_hex: bool = False, trailing_ok: bool = False,
                  partial_ok: bool = False, echo_strict: bool = True, poison: bool = True,
-                 consts: bool = True) -> None:
+                 poison_text: bool = True, consts: bool = True) -> None:
         self.lex_int = lex_int  # integers compared as written ('01' != 1) instead of by value
         self.lex_hex = lex_hex  # byte fields compared with the upper-case hex spelling only
         self.trailing_ok = trailing_ok  # surplus bytes after a complete structure are ignored
         self.partial_ok = partial_ok  # an incomplete last item of an END-OF-PDU field is ignored
         self.echo_strict = echo_strict  # a wrong MATCHING-REQUEST echo makes a response undecodable
         self.poison = poison  # an undecodable leaf makes the whole response undecodable
+        # ... separately for bytes >= 0x80 in an ASCII string (an 8-bit code page may be in use)
+        self.poison_text = poison_text
         self.consts = consts  # False = defect model: CODED-CONST mismatches are ignored
 
     def replace(self, **kw: bool) -> "Reading":
@@ -185,7 +199,7 @@ def _dec(layout: List[J], data: bytes, pos: int, req: bytes, rd: Reading) -> Tup
             if pos + n > len(data):
                 raise _Fail()
             v = dec_leaf(f["ty"], data[pos:pos + n])
-            if v is INVALID and rd.poison:
+            if v is INVALID and (rd.poison_text if f["ty"] == "asc2" else rd.poison):
                 raise _Fail()
             out[f["n"]] = v
             pos += n
@@ -252,6 +266,11 @@ def _is_canonical_int(s: str) -> bool:
 def value_matches(expected: str, v: Any, rd: Reading) -> bool:
     if v is INVALID or isinstance(v, (dict, list)):
         return False
+    if isinstance(v, Dtc):
+        # the code in hexadecimal; digits in either case (open clause, like byte fields)
+        if rd.lex_hex:
+            return expected == hex(v)
+        return expected.upper() == hex(v).upper()
     if isinstance(v, bool):
         return expected == str(v)
     if isinstance(v, float):
@@ -459,6 +478,8 @@ def gen_service(r: Any, name: str, req_kind: str, ident: int, shape: str) -> J:
 
 
 def _vals_json(v: Any) -> Any:
+    if isinstance(v, Dtc):
+        return "dtc:" + hex(v)
     if isinstance(v, (bytes, bytearray)):
         return "0x" + bytes(v).hex()
     if isinstance(v, dict):
@@ -477,6 +498,12 @@ def expected_for(r: Any, ty: str, v: Any, style: str) -> str:
         if style == "near":
             return repr(v + r.choice([1e-6, -1e-6, 0.5]))
         return repr(v) if ty != "f32" or v != _f32(0.1) else r.choice([repr(v), "0.1"])
+    if isinstance(v, Dtc):
+        if style == "alt":  # upper-case digits: open clause
+            return "0x" + hex(v)[2:].upper()
+        if style == "near":  # another code, or the code as a decimal number
+            return r.choice([hex(v ^ 1), str(int(v)), hex(v + 0x100)])
+        return hex(v)
     if isinstance(v, int):
         if style == "alt":  # non-canonical spelling: open clause, both readings accepted
             return ("0" + str(v)) if v >= 0 else ("-0" + str(-v))
@@ -734,6 +761,9 @@ def dops() -> List[J]:
         g.dop("lin", g.dct_std("A_UINT32", 8), ptype="A_FLOAT64", compu=lin),
         g.dop("tt", g.dct_std("A_UINT32", 8), ptype="A_UNICODE2STRING", compu=tt),
         g.dop("f32", g.dct_std("A_FLOAT32", 32)),
+        {"t": "DTCDOP", "name": "dtc3", "dct": g.dct_std("A_UINT32", 24), "ptype": "A_UINT32",
+         "compu": g.compu_identical(),
+         "dtcs": [{"name": f"dtc_{c:06x}", "code": c} for c in DTCS]},
     ]
 
 
